@@ -164,10 +164,19 @@ func c25Bloom(rt *rapid.T) []byte {
 }
 
 func c25Input(rt *rapid.T, maxLen int) ([]byte, string) {
-	kind := rapid.SampledFrom([]string{"bloom", "bloom", "runs", "random", "smallAlphabet", "overflow", "closeGrow", "closeReset", "short"}).Draw(rt, "kind")
+	kind := rapid.SampledFrom([]string{"bloom", "bloom", "runs", "random", "smallAlphabet", "overflow", "closeGrow", "closeReset", "short", "sparseLarge"}).Draw(rt, "kind")
 	switch kind {
 	case "bloom":
 		return c25Bloom(rt), kind
+	case "sparseLarge":
+		// kilobytes of one byte value with a handful of other bytes: the highest compression ratios (a constant
+		// string of N bytes takes about sqrt(2N) codes)
+		n := rapid.IntRange(2048, maxLen).Draw(rt, "n")
+		out := bytes.Repeat([]byte{rapid.SampledFrom([]byte{0x00, 0x00, 0xff, 0x55}).Draw(rt, "fill")}, n)
+		for i, k := 0, rapid.IntRange(0, 12).Draw(rt, "specks"); i < k; i++ {
+			out[rapid.IntRange(0, n-1).Draw(rt, "at")] ^= byte(1) << uint(rapid.IntRange(0, 7).Draw(rt, "bit"))
+		}
+		return out, kind
 	case "runs":
 		n := rapid.IntRange(1, 40).Draw(rt, "nruns")
 		var out []byte
